@@ -292,7 +292,10 @@ def _run(plan, base):
     except Violation as v:
         viol = {"clause": v.clause, "sig": v.sig, "detail": v.detail}
     stats["outcomes"]["violation" if viol else "held"] = 1
-    return {"violation": viol, "stats": stats, "digest": digest(log), "plan": dict(plan),
+    xplan = dict(plan)
+    if viol:
+        xplan["recorded_schedule"] = next((e[4] for e in reversed(log) if e[0] == "sim"), None)
+    return {"violation": viol, "stats": stats, "digest": digest(log), "plan": xplan,
             "sample": {"plan": {k: (v if k != "spikes" else v[:12]) for k, v in plan.items() if k != "trace"},
                        "n_spikes": len(plan["spikes"]), "schedule_head": next((e[4][:10] for e in reversed(log) if e[0] == "sim"), None)}}
 
